@@ -4,7 +4,7 @@ From Coq Require Import Permutation List Bool NArith.
 From TSG Require Import Model.Run Model.Stdlib Model.IdxBridge Proofs.BaseFacts Proofs.IdxStrict Proofs.IdxLazy Proofs.IdxBridge Proofs.IdxReal Proofs.SLExpr Proofs.StrictLazy
   Proofs.SL2Force Proofs.SL2Expr Proofs.SL2Stmt Proofs.SL2Whole Proofs.ScPermSim Proofs.ScPermSwap Proofs.ScPermExec Proofs.BlockPermRen Proofs.BlockPermGraph Proofs.BlockPermExec Proofs.SLAny Proofs.BlockPermStd Proofs.IdxRealExample.
 From TSG Require Props.C02.
-Require Import P04.
+Require Import P04sel.
 Import ListNotations.
 Open Scope N_scope.
 Definition r := pc_34_run. Definition t := pc_34_tree.
